@@ -975,3 +975,112 @@ Proof.
   destruct (reads_select_latest (d_seqno d) I (k_tree ks) k V L0) as [G S]. split; [rewrite G, AB; reflexivity|].
   eexists. split; [exact S|]. split; [apply scan_sorted|]. intros k' v. rewrite <- AB. apply (scan_matches_reads I d ks k' v DI Iks).
 Qed.
+
+(* ======================= keyspace ids are unique ======================= *)
+Definition UQ (d : db) : Prop := NoDup (map k_id (d_kss d)) /\ forall ks, In ks (d_kss d) -> k_id ks < d_next_id d.
+
+Lemma kfind_nodup kss ks : NoDup (map k_id kss) -> In ks kss -> kfind kss (k_id ks) = Some ks.
+Proof.
+  unfold kfind. induction kss as [|a r IH]; intros ND I; [destruct I|]. cbn [map] in ND. inversion ND as [|? ? NI ND']; subst.
+  cbn [find]. destruct I as [->|I]; [rewrite N.eqb_refl; reflexivity|].
+  destruct (N.eqb_spec (k_id a) (k_id ks)) as [E|NE]; [exfalso; apply NI; rewrite E; apply in_map, I|apply IH; assumption].
+Qed.
+
+Definition idsame (kss kss' : list kspace) : Prop := map k_id kss' = map k_id kss.
+Lemma idsame_refl kss : idsame kss kss.
+Proof. reflexivity. Qed.
+Lemma idsame_trans a b c : idsame a b -> idsame b c -> idsame a c.
+Proof. unfold idsame. congruence. Qed.
+Lemma idsame_map f kss : (forall x, k_id (f x) = k_id x) -> idsame kss (map f kss).
+Proof. intros H. unfold idsame. rewrite map_map. apply map_ext. exact H. Qed.
+Lemma idsame_set d ks t' : idsame (d_kss d) (set_ks d (with_tree ks t')).
+Proof.
+  unfold idsame, set_ks. rewrite map_map. apply map_ext_in. intros x _. cbn [with_tree k_id].
+  destruct (N.eqb_spec (k_id x) (k_id ks)) as [E|NE]; [cbn; congruence|reflexivity].
+Qed.
+Lemma idsame_fold s mi : forall kss, idsame kss (fold_left (apply_item s) mi kss).
+Proof.
+  induction mi as [|it r IH]; intros kss; cbn [fold_left]; [apply idsame_refl|]. eapply idsame_trans; [|apply IH].
+  apply idsame_map. intros x. destruct (k_id x =? ri_ks it); reflexivity.
+Qed.
+
+Lemma UQ_same d d' : idsame (d_kss d) (d_kss d') -> d_next_id d <= d_next_id d' -> UQ d -> UQ d'.
+Proof.
+  intros E L [A B]. split; [rewrite E; exact A|]. intros ks I.
+  assert (In (k_id ks) (map k_id (d_kss d))) by (rewrite <- E; apply in_map, I).
+  rewrite in_map_iff in H. destruct H as [k0 [E0 I0]]. rewrite <- E0. specialize (B k0 I0). lia.
+Qed.
+
+Lemma idsame_do_rotate d id : idsame (d_kss d) (d_kss (fst (do_rotate d id))) /\ d_next_id (fst (do_rotate d id)) = d_next_id d.
+Proof.
+  unfold do_rotate. destruct (ks_of d id) as [ks|]; [|split; reflexivity]. destruct (t_rotate (k_tree ks)) as [t ok].
+  destruct ok; [|split; reflexivity]. cbn [fst]. split; [|reflexivity]. unfold after_rotate, journal_maintenance. cbn [d_kss upd upd_queue].
+  eapply idsame_trans; [apply (idsame_set d ks t)|]. apply idsame_map. intros x. destruct (existsb _ _); reflexivity.
+Qed.
+
+Lemma idsame_do_step d : idsame (d_kss d) (d_kss (fst (do_step d))) /\ d_next_id (fst (do_step d)) = d_next_id d.
+Proof.
+  unfold do_step. destruct (d_queue d) as [|m q]; [split; reflexivity|]. destruct m as [id mid| |id].
+  - destruct (ks_of _ id) as [ks|]; [|split; reflexivity]. destruct (_ =? _); [|split; reflexivity]. cbn [fst].
+    apply (idsame_do_rotate (upd_queue d q (d_flushq d)) id).
+  - destruct (d_flushq _) as [|id fq]; [split; reflexivity|].
+    match goal with |- context [maybe_seal ?X] => set (dd := X) end.
+    assert (E1 : d_kss (maybe_seal dd) = d_kss d) by (unfold maybe_seal; destruct (_ && _); reflexivity).
+    assert (E2 : d_next_id (maybe_seal dd) = d_next_id d) by (unfold maybe_seal; destruct (_ && _); reflexivity).
+    destruct (ks_of (maybe_seal dd) id) as [ks|]; [|cbn [fst]; unfold idsame; rewrite E1; split; [reflexivity|exact E2]]. cbn [fst].
+    destruct (v_sealed (latest (k_tree ks))); cbn [d_kss d_next_id journal_maintenance push_msg upd_queue upd draw_version fst snd].
+    + unfold idsame. rewrite E1. split; [reflexivity|exact E2].
+    + split; [|exact E2]. rewrite <- E1. apply (idsame_set (upd (maybe_seal dd) _ _ (d_kss (maybe_seal dd))) ks).
+  - split; reflexivity.
+Qed.
+
+Lemma idsame_do_drain f : forall d n, idsame (d_kss d) (d_kss (fst (do_drain f d n))) /\ d_next_id (fst (do_drain f d n)) = d_next_id d.
+Proof.
+  induction f as [|f IH]; intros d n; cbn [do_drain]; [split; reflexivity|]. destruct (d_queue d); [split; reflexivity|].
+  destruct (idsame_do_step d) as [A B]. destruct (IH (fst (do_step d)) (n + 1)) as [A' B']. split; [eapply idsame_trans; eassumption|congruence].
+Qed.
+
+Theorem wstep_UQ d o : UQ d -> UQ (wstep d o).
+Proof.
+  intros H. destruct o; cbn [wstep].
+  - unfold do_ks. destruct (blookup name (d_map d)); cbn [fst]; [apply (UQ_same d); [reflexivity|cbn; lia|exact H]|].
+    destruct H as [A B]. unfold UQ. cbn [d_kss d_next_id upd_views upd_reg draw_version fst snd upd].
+    assert (F : filter (fun k => negb (k_id k =? d_next_id d)) (d_kss d) = d_kss d).
+    { clear A. induction (d_kss d) as [|a r IH]; [reflexivity|]. cbn [filter].
+      assert (k_id a < d_next_id d) by (apply B; now left). destruct (N.eqb_spec (k_id a) (d_next_id d)); [lia|]. cbn [negb].
+      f_equal. apply IH. intros ks I. apply B. now right. }
+    rewrite F. split.
+    + cbn [map k_id]. constructor; [|exact A]. intros I. rewrite in_map_iff in I. destruct I as [k0 [E I0]]. specialize (B k0 I0). lia.
+    + intros ks [<-|I]; [cbn; lia|]. specialize (B ks I). lia.
+  - unfold write_one. destruct (ks_of d id) as [ks|]; [|exact H]. destruct (k_deleted ks); [exact H|]. destruct (d_poisoned d); [exact H|].
+    cbn [fst]. apply (UQ_same d); [apply idsame_fold|cbn; lia|exact H].
+  - apply (UQ_same d); [apply idsame_fold|cbn; lia|exact H].
+  - unfold do_clear. destruct (ks_of d id) as [ks|]; [|exact H]. destruct (d_poisoned d); [exact H|].
+    unfold draw_version. cbn [fst snd]. apply (UQ_same d); [|cbn; lia|exact H]. cbn [d_kss upd]. apply (idsame_set (upd _ _ _ (d_kss d)) ks).
+  - destruct (idsame_do_rotate d id) as [A B]. apply (UQ_same d); [exact A|lia|exact H].
+  - destruct (idsame_do_step d) as [A B]. apply (UQ_same d); [exact A|lia|exact H].
+  - destruct (idsame_do_drain fuel d 0) as [A B]. apply (UQ_same d); [exact A|lia|exact H].
+  - unfold do_compact. destruct (ks_of d id) as [ks|]; [|exact H]. destruct (v_tables _); [exact H|]. unfold draw_version. cbn [fst snd].
+    apply (UQ_same d); [|cbn; lia|exact H]. cbn [d_kss upd]. apply (idsame_set (upd _ _ _ (d_kss d)) ks).
+  - unfold do_ingest. destruct (ks_of d id) as [ks|]; [|exact H]. destruct items; [apply (UQ_same d); [reflexivity|cbn; lia|exact H]|].
+    destruct (t_rotate (k_tree ks)) as [t1 b]. destruct (v_sealed (latest t1)); unfold draw_version; cbn [fst snd];
+      (apply (UQ_same d); [|cbn; lia|exact H]); cbn [d_kss push_msg upd_queue upd]; apply (idsame_set (upd _ _ _ (d_kss d)) ks).
+Qed.
+
+Lemma run_UQ ops : forall d, UQ d -> UQ (fold_left wstep ops d).
+Proof. induction ops as [|o r IH]; intros d H; cbn [fold_left]; [exact H|]. apply IH, wstep_UQ, H. Qed.
+Lemma UQ_init mode filters : UQ (db_init mode filters).
+Proof. split; [constructor|intros ks []]. Qed.
+
+(* the headline theorem without the side condition: every keyspace object of a reachable state is the registered one for its id *)
+Theorem db_reads_refine_all mode ops I ks k :
+  let d := fold_left wstep ops (db_init mode []) in
+  In ks (d_kss d) -> d_seqno d < I ->
+  t_get (k_tree ks) k I = Some (srun (db_init mode []) ops sempty (k_id ks) k) /\
+  exists sc, t_scan (k_tree ks) I = Some sc /\
+             Sorted.StronglySorted (fun a b => bytes_ltb (fst a) (fst b) = true) sc /\
+             forall k' v, In (k', v) sc <-> srun (db_init mode []) ops sempty (k_id ks) k' = Some v.
+Proof.
+  intros d Iks L. apply db_reads_refine; [exact Iks|exact L|].
+  apply kfind_nodup; [|exact Iks]. exact (proj1 (run_UQ ops _ (UQ_init mode []))).
+Qed.
